@@ -65,6 +65,19 @@ def lineOK (l : List UInt8) : Bool :=
 /-- text outside the directives: only blank lines and comment lines -/
 def gapOK (g : List UInt8) : Bool := (splitLines g).all lineOK
 
+mutual
+/-- `p` holds of the node and of all its descendants -/
+def nodeAll (p : Node → Bool) : Node → Bool
+  | .mk k r cs => p (.mk k r cs) && nodesAll p cs
+def nodesAll (p : Node → Bool) : List Node → Bool
+  | [] => true
+  | c :: cs => nodeAll p c && nodesAll p cs
+end
+
+/-- `Extract()` of the element does not panic and is the slice of the text it points to -/
+def extractOK (text : List UInt8) (n : Node) : Bool :=
+  n.range.extract text == some (slice text n.range.start n.range.stop)
+
 /-- the whole statement about a returned tree, as one predicate on (text, tree) -/
 def treeOK (text : List UInt8) (root : Node) : Bool :=
   let tops := root.children.map Node.range
